@@ -4,7 +4,9 @@ renamings of its clauses' variables; the implementation's observations are compa
 import re
 from lib.sx import *
 from lib import histcheck, obs
-from gen import progs, histgen
+from gen import progs
+from gen.progs import AND, C
+from gen import histgen
 
 SPEC_COLUMN_IS_ORACLE_INPUT = True
 equivalent = histcheck.equivalent
@@ -79,6 +81,19 @@ def cases(tier, rng):
         out.append((as_text(rules), "original-t%d" % k))
         for kind in ("suffix", "prefix", "mixed", "long-prefix"):
             out.append((as_text([rename_rule(r, text_scheme(kind)) for r in rules]), "%s-t%d" % (kind, k)))
+    # a clause with 15-20 distinct variables is fetched first, then clauses that reuse some of its names (a renaming map that
+    # is reused across fetches and not emptied would hand them the earlier ids)
+    for nv in (14, 15, 16, 17, 20):
+        names = ["$%s" % chr(65 + k) for k in range(nv)]
+        vs = [var(0, n) for n in names]
+        wide = rule(cplx("spread", lst(vs), vs[0], vs[-1]))
+        rs = [wide, rule(cplx("hue", atom("red"))), rule(cplx("hue", atom("blue"))),
+              rule(cplx("colour", vs[0]), AND(C("spread", lst([integer(k) for k in range(nv)]), vs[1], vs[2]), C("hue", vs[0]))),
+              rule(cplx("two", vs[0], vs[1]), AND(C("colour", vs[0]), C("colour", vs[1])))]
+        ops = [progs.build(0, [atom("two"), var(0, "$P"), var(0, "$Q")])] + [progs.ask(0)] * 6
+        out.append((progs.hist(rs, ops), "original-w%d" % nv))
+        for kind in ("same-names", "permute", "fresh", "long-prefix"):
+            out.append((progs.hist([rename_rule(r, scheme(kind, rng)) for r in rs], ops), "%s-w%d" % (kind, nv)))
     # witness of the known finding: join(..) turns an UNBOUND variable into text that contains its name
     wit = [rule(cplx("f", var(0, "$X"), var(0, "$Y")), bip("unify", var(0, "$Y"), fn("join", var(0, "$X"), atom("hello"))))]
     wops = [progs.build(0, [atom("f"), var(0, "$A"), var(0, "$R")]), progs.ask(0), progs.ask(0)]
